@@ -343,7 +343,7 @@ func cmdMutate(args []string) int {
 	baseline := map[string]map[string]string{} // unit key -> agg name -> status
 	baseAll := map[string]map[string]bool{}    // unit key -> every agg name the unchanged function generates
 	unitChecks := loadUnitChecks()
-	for _, mod := range []string{".", "v2"} {
+	for _, mod := range []string{".", "v2", "cmd"} {
 		eng, err := getEngine(mod, nil)
 		if err != nil {
 			fmt.Fprintln(os.Stderr, "cannot load", mod, err)
